@@ -640,7 +640,10 @@ def run_config(paths, slots, ops, tag, watchdog_ms=2000, timeout=900):
             res["problems"].append(("diff-" + kind, op, {"impl": want, "model": got}))
         else:
             res["validated"] += 1
-    res["samples"] = [{"op": o, "impl": w} for (o, w, _) in expect[:2] + expect[-3:-1]]
+    named = [(o, w) for (o, w, k) in expect if o.startswith("sel ") and k == "l1" and len(o.split()[2]) > 4]
+    hits = [(o, w) for (o, w) in named if w.startswith("ok")]
+    miss = [(o, w) for (o, w) in named if w.startswith("err")]
+    res["samples"] = [{"configuration": describe_slots(slots)[:300], "op": o[:200], "impl": w[:200]} for (o, w) in hits[:2] + hits[-1:] + miss[:1] + miss[-2:]]
     return res
 
 
@@ -768,13 +771,17 @@ def run(ctx):
                        "A case is non-trivial if the model labels it with a branch the property is about (%s); distinct = distinct (configuration, branch label) pairs."
                        % (len(jobs), ", ".join(INTERESTING)))
     ctx.cov["exhaustive"] = False
+    ctx.cov["exhaustive_presence_subsets"] = len(subsets) == 64
     ctx.cov["model_branch_hits"] = dict(sorted(branches.items()))
     ctx.cov["configurations"] = len(jobs)
     ctx.cov["presence_subsets_of_six_libraries"] = len(subsets)
     ctx.cov["layer2_patterns_decided_by_lean_matcher"] = tot["l2"]
     ctx.cov["timeouts"] = tot["timeouts"]
     ctx.cov["inconclusive_own_regex"] = tot["inconclusive"]
-    ctx.cov["samples"] = [s for r in results[:2] for s in r["samples"]][:6]
+    ctx.cov["samples"] = ([s for r in results[-3:] for s in r["samples"][:2]] + [s for r in results[:1] for s in r["samples"]])[:8]
+    if tot["timeouts"] + tot["inconclusive"] > max(20, tot["evaluations"] // 20):
+        ctx.notes.append("%d of %d calls hit the 2 s watchdog (dropped from the comparison): machine heavily loaded or many backtracking patterns"
+                         % (tot["timeouts"] + tot["inconclusive"], tot["evaluations"]))
     ctx.assumptions += [
         "std::regex outside the layer-2 subset is exercised (its verdicts are inputs of the model), not modelled",
         "dlopen/dlsym: a library that is absent, not a shared object, lacks the entry point or fails to initialise is modelled as 'driver_load returns NULL' (checked on every run by the configurations)",
